@@ -74,6 +74,7 @@ class Contract:
         ghost=None,
         hints=(),
         call_ensures=None,
+        call_default=False,
     ):
         self.func = func
         self.key = func + (f"#{variant}" if variant else "")
@@ -97,6 +98,7 @@ class Contract:
         self.kwargs = kwargs  # for **kwargs functions: {"known": {...}, "open": bool}
         self.ghost_pre = ghost_pre
         self.no_raise = no_raise
+        self.call_default = call_default  # among variants, the contract used at call sites
         self.call_ensures = call_ensures  # what callers may assume instead of ``ensures`` (an abstraction of it)
         self.hints = list(hints)  # instances of trusted builtin-model facts, assumed (listed in evidence)
         self.ghost = dict(ghost or {})  # extra universally quantified symbols usable in clauses
@@ -123,8 +125,9 @@ class ContractDB:
 
     def add(self, c: Contract):
         self.contracts[c.key] = c
-        if c.variant is None or c.func not in self.by_func:
-            self.by_func[c.func] = c
+        if c.variant is None or c.call_default or c.func not in self.by_func:
+            if not (c.func in self.by_func and self.by_func[c.func].call_default and not c.call_default):
+                self.by_func[c.func] = c
         return c
 
     def get(self, key):
@@ -191,15 +194,18 @@ def _sb_pad(ex, st, args, kwargs):
 def _sb_matches(ex, st, args, kwargs):
     from .regex import to_z3
 
-    s, pat = args
+    s0, pat = args
     if is_sym(pat):
         raise Unsupported("matches with symbolic pattern")
-    if not is_sym(s):
-        import re
+    for st1, s in ex.narrow(st, s0):
+        if s is None:
+            yield ex.raise_(st1, "TypeError")
+        elif not is_sym(s):
+            import re
 
-        yield st, re.fullmatch(pat, s) is not None
-    else:
-        yield st, SV("bool", z3.InRe(s.t, to_z3(pat)))
+            yield st1, re.fullmatch(pat, s) is not None
+        else:
+            yield st1, SV("bool", z3.InRe(s.t, to_z3(pat)))
 
 
 def _sb_nat(ex, st, args, kwargs):
@@ -216,6 +222,14 @@ def _sb_key_at(ex, st, args, kwargs):
         yield st, list(d.items.keys())[j]
     else:
         yield st, SV(d.ksort, d.key_at[lift(j, "int")])
+
+
+def _sb_pos_of(ex, st, args, kwargs):
+    d, k = st.deref(args[0]), args[1]
+    if isinstance(d, PDict):
+        yield st, list(d.items.keys()).index(k)
+    else:
+        yield st, SV("int", d.pos[lift(k, d.ksort)])
 
 
 def _sb_val_at(ex, st, args, kwargs):
@@ -237,20 +251,77 @@ def _sb_strip_unique(ex, st, args, kwargs):
     yield st, SV("bool", bm.strip_unique_instance(s, a, r, b))
 
 
-def _sb_strip_padded(ex, st, args, kwargs):
-    """strip_padded(s, w1, tok, w2, pattern): s = w1+tok+w2, w1/w2 whitespace, tok in L(pattern) whose
-    strings never start/end with whitespace (decided on the regex)  =>  s.strip() == tok."""
-    from .regex import ends_exclude, to_z3
+def _tokens(args):
+    """(value, pattern|None) pairs -> (canonical concat value, [z3 membership facts], first pat, last pat)."""
+    if len(args) % 2:
+        raise Unsupported("token list must alternate value, pattern")
+    vals, facts, pats = [], [], []
+    from .regex import to_z3
 
-    s, a, r, b, pat = args
-    if is_sym(pat):
-        raise Unsupported("strip_padded needs a literal pattern")
-    if not ends_exclude(pat, bm.PY_WS):
-        raise Unsupported(f"strip_padded: pattern {pat!r} may start or end with whitespace / be empty")
-    s, a, r, b = [bm.sstr(x) for x in (s, a, r, b)]
-    ws = z3.Star(bm.RE_WS)
-    yield st, SV("bool", z3.Implies(z3.And(s == z3.Concat(a, r, b), z3.InRe(a, ws), z3.InRe(b, ws), z3.InRe(r, to_z3(pat))),
-                                    bm.PY_STRIP(s) == r))
+    for i in range(0, len(args), 2):
+        v, pat = args[i], args[i + 1]
+        vals.append(v)
+        if pat is None:
+            if is_sym(v):
+                raise Unsupported("a token without pattern must be a literal")
+            pats.append(("lit", v))
+        else:
+            facts.append(z3.InRe(bm.sstr(v), to_z3(pat)))
+            pats.append(("re", pat))
+    return vals, facts, pats
+
+
+def _pat_text(pats):
+    import re
+
+    return "".join(re.escape(p) if k == "lit" else f"(?:{p})" for k, p in pats)
+
+
+def _sb_strip_padded(ex, st, args, kwargs):
+    """strip_padded(s, w1, ws_pattern, w2, tok1, pat1, tok2, pat2, ...)
+
+    s == w1 + tok1 + tok2 + ... + w2, w1/w2 in L(ws_pattern) (only whitespace), tok_i in L(pat_i) (a
+    literal when pat_i is None), and the token sequence can neither be empty nor start/end with
+    whitespace  =>  s.strip() == tok1 + tok2 + ...      [trusted fact about str.strip]
+    The antecedent is built from the same canonical terms the ``requires`` clauses produce."""
+    from .regex import MAXCODE, ends_exclude, to_z3, _fl
+    import re as _re
+
+    s, w1, wspat, w2 = args[:4]
+    if is_sym(wspat):
+        raise Unsupported("strip_padded needs a literal whitespace pattern")
+    # the padding pattern may only produce python whitespace
+    from .regex import only_chars
+
+    if not only_chars(wspat, lambda c: c.isspace()):
+        raise Unsupported(f"strip_padded: {wspat!r} is not a whitespace-only pattern")
+    vals, facts, pats = _tokens(list(args[4:]))
+    if not ends_exclude(_pat_text(pats), bm.PY_WS):
+        raise Unsupported(f"strip_padded: tokens {_pat_text(pats)!r} may be empty or start/end with whitespace")
+    whole = bm.str_concat([w1] + vals + [w2])
+    core = bm.str_concat(vals)
+    ws = to_z3(wspat)
+    ante = [bm.sstr(s) == bm.sstr(whole), z3.InRe(bm.sstr(w1), ws), z3.InRe(bm.sstr(w2), ws)] + facts
+    yield st, SV("bool", z3.Implies(z3.And(*ante), bm.PY_STRIP(bm.sstr(s)) == bm.sstr(core)))
+
+
+def _sb_index_at(ex, st, args, kwargs):
+    """index_at(a, pattern_a, sep, b): a in L(pattern_a), no string of which contains sep[0]  =>
+    for s = a+sep+b: s.find(sep) == len(a), s[:len(a)] == a and s[len(a)+len(sep):] == b."""
+    from .regex import alphabet_excludes, to_z3
+
+    a, pat, sep, b = args
+    if is_sym(pat) or is_sym(sep) or not sep:
+        raise Unsupported("index_at needs literal separator and pattern")
+    if not alphabet_excludes(pat, sep[0]):
+        raise Unsupported(f"index_at: strings of {pat!r} may contain {sep[0]!r}")
+    s = bm.sstr(bm.str_concat([a, sep, b]))
+    a, b = bm.sstr(a), bm.sstr(b)
+    sp = z3.StringVal(sep)
+    yield st, SV("bool", z3.Implies(z3.InRe(a, to_z3(pat)),
+                                    z3.And(z3.IndexOf(s, sp, 0) == z3.Length(a),
+                                           z3.SubString(s, 0, z3.Length(a)) == a,
+                                           z3.SubString(s, z3.Length(a) + len(sep), z3.Length(s) - z3.Length(a) - len(sep)) == b)))
 
 
 def _sb_int_of_signed(ex, st, args, kwargs):
@@ -306,12 +377,23 @@ def _sb_call_arg(ex, st, args, kwargs):
     yield st, calls[0][3][i]
 
 
+def _sb_strip_blank(ex, st, args, kwargs):
+    """strip_blank(s): a whitespace-only string strips to '' (trusted fact about str.strip)."""
+    (s,) = args
+    t = bm.sstr(s)
+    yield st, SV("bool", z3.Implies(z3.InRe(t, z3.Star(bm.RE_WS)), bm.PY_STRIP(t) == z3.StringVal("")))
+
+
 def _sb_py_strip(ex, st, args, kwargs):
     (s,) = args
-    yield st, bm.model_strip(ex, st, s)
+    for st1, w in ex.narrow(st, s):
+        if w is None:
+            yield ex.raise_(st1, "AttributeError")
+        else:
+            yield st1, bm.model_strip(ex, st1, w)
 
 
-SPEC_BUILTINS = {"call_arg": _sb_call_arg, "unmodified": _sb_unmodified, "uf": _sb_uf, "called": _sb_called, "py_isalpha": _sb_py_isalpha, "py_isdigit": _sb_py_isdigit, "int_of_signed": _sb_int_of_signed, "strip_padded": _sb_strip_padded, "strip_unique": _sb_strip_unique, "py_strip": _sb_py_strip, "pad": _sb_pad, "matches": _sb_matches, "nat": _sb_nat, "key_at": _sb_key_at, "val_at": _sb_val_at,
+SPEC_BUILTINS = {"index_at": _sb_index_at, "strip_blank": _sb_strip_blank, "pos_of": _sb_pos_of, "call_arg": _sb_call_arg, "unmodified": _sb_unmodified, "uf": _sb_uf, "called": _sb_called, "py_isalpha": _sb_py_isalpha, "py_isdigit": _sb_py_isdigit, "int_of_signed": _sb_int_of_signed, "strip_padded": _sb_strip_padded, "strip_unique": _sb_strip_unique, "py_strip": _sb_py_strip, "pad": _sb_pad, "matches": _sb_matches, "nat": _sb_nat, "key_at": _sb_key_at, "val_at": _sb_val_at,
                  "same_dict": _sb_same_dict}
 
 
@@ -674,6 +756,10 @@ def _havoc_heap(ex, st, spec):
         if attr:
             v = st.deref(v).fields.get(attr)
         o = st.deref(v)
+        if isinstance(o, PDict) and m in spec.vars and spec.vars[m].startswith("dict["):
+            k, vs = bm_split(spec.vars[m][5:-1])
+            o = bm.pdict_to_sdict(o, parse_sort(k), parse_sort(vs))
+            st.heap[v.addr] = o
         if isinstance(o, SDict):
             _havoc_dict(st, o)
         elif type(o).__name__ == "SSet":
